@@ -98,25 +98,8 @@ func (ms *MultiplexerSignal) addSignal(sig Signal) {
 	sig.setParentMuxSig(ms)
 
 	if ms.hasParentMsg() {
-		if sig.Kind() == SignalKindMultiplexer {
-			muxSig, err := sig.ToMultiplexer()
-			if err != nil {
-				panic(err)
-			}
-
-			for tmpSigID, tmpSig := range muxSig.signals.entries() {
-				ms.parentMsg.signals.add(tmpSigID, tmpSig)
-			}
-
-			for tmpName, tmpSigID := range muxSig.signalNames.entries() {
-				ms.parentMsg.signalNames.add(tmpName, tmpSigID)
-			}
-		}
-
-		ms.parentMsg.signals.add(id, sig)
-		ms.parentMsg.signalNames.add(name, id)
-
-		sig.setParentMsg(ms.parentMsg)
+		// registers the signal and, if it is a multiplexer, all the signals nested in it
+		ms.parentMsg.addSignal(sig)
 	}
 }
 
@@ -130,25 +113,8 @@ func (ms *MultiplexerSignal) removeSignal(sig Signal) {
 	sig.setParentMuxSig(nil)
 
 	if ms.hasParentMsg() {
-		if sig.Kind() == SignalKindMultiplexer {
-			muxSig, err := sig.ToMultiplexer()
-			if err != nil {
-				panic(err)
-			}
-
-			for _, tmpSigID := range muxSig.signals.getKeys() {
-				ms.parentMsg.signals.remove(tmpSigID)
-			}
-
-			for _, tmpName := range muxSig.signalNames.getKeys() {
-				ms.parentMsg.signalNames.remove(tmpName)
-			}
-		}
-
-		ms.parentMsg.signals.remove(id)
-		ms.parentMsg.signalNames.remove(name)
-
-		sig.setParentMsg(nil)
+		// unregisters the signal and, if it is a multiplexer, all the signals nested in it
+		ms.parentMsg.removeSignal(sig)
 	}
 }
 
@@ -372,6 +338,15 @@ func (ms *MultiplexerSignal) InsertSignal(signal Signal, startBit int, groupIDs 
 		return ms.errorf(insErr)
 	}
 
+	// the signals nested in a signal that is already part of the multiplexer
+	// (inserted into further groups) are already known by the message
+	if ms.hasParentMsg() && !ms.signals.hasKey(signal.EntityID()) {
+		if err := ms.parentMsg.verifyNestedSignalNames(signal); err != nil {
+			insErr.Err = err
+			return ms.errorf(insErr)
+		}
+	}
+
 	if len(groupIDs) == 0 {
 		for i := 0; i < ms.groupCount; i++ {
 			if err := ms.groups[i].verifyBeforeInsert(signal, startBit); err != nil {
@@ -387,6 +362,8 @@ func (ms *MultiplexerSignal) InsertSignal(signal Signal, startBit int, groupIDs 
 		ms.fixedSignals.add(signal.EntityID(), true)
 
 	} else {
+		groupIDs = slices.Clone(groupIDs)
+		slices.Sort(groupIDs)
 		groupIDs = slices.Compact(groupIDs)
 
 		prevGroupIDs := []int{}
